@@ -43,6 +43,8 @@ def run(ck):
     ck.rule("C11.R17", "the max-level shortcut in front of the directive table never hides an entry: DirectiveSet::add keeps max_level >= every stored level, also on replacement (as C08.R4)", floor=1)
     ck.rule("C11.R18", "`the directive allows its level` compares levels with a correct total order (as C19.R1/R2/R4)", floor=60)
     ck.rule("C11.R19", "Targets builder steps add exactly the directive they name: with_target -> (Some(target), no field names, level), with_default -> (None, no field names, level), each through DirectiveSet::add, returning the same Targets", floor=2)
+    ck.rule("C11.R21", "a directive that matches on a field value can enable a span of any level, so with such directives the filter's hint is TRACE (else the "
+            "macros' max-level gate drops the span before the filter sees its value); every enabling path of enabled() sits behind max_level (as C08.R5)", floor=3)
     ck.rule("C11.R20", "inside a matching span the enabled level is the most verbose level among *all* its matched value directives (else the span directives' base level): SpanMatcher::level takes the maximum, SpanMatch::filter yields its level exactly when matched", floor=2)
     ck.rule("C11.R9", "EnvFilter Builder steps keep every other option (same-named field carry-over, as C13.R6)", floor=3)
     ck.rule("C11.R1", "directive vector mutated only by DirectiveSet::add at the binary_search position; max_level kept an upper bound", floor=5)
@@ -72,6 +74,8 @@ def run(ck):
     kind_rule(ck, F)
     targets_builder_rule(ck, F)
     span_matcher_level_rule(ck, F)
+    from rules import C08 as _C08
+    _C08.r5(ck, F, rid="C11.R21")
     from rules import C19 as _C19
     _C19.order_rules(ck, Facts("default"), "C11.R18")
     C08.directive_add_rule(ck, Facts("release"), rid="C11.R17")
